@@ -311,6 +311,41 @@ pub fn check_bytes(input: &[u8]) -> Result<(bool, u64, u64), String> {
         same("str vs [u8] tokenize_words", &ts.words, &tb.words)?;
         same("str vs [u8] tokenize_chars", &ts.chars, &tb.chars)?;
     }
+    // the input as a VIEW into a larger buffer whose neighbouring bytes would change the
+    // tokens if a tokenizer looked past the ends of the slice it was given
+    const NEIGHBOURS: [(&[u8], &[u8]); 4] = [
+        (b"\r", b"\n"),
+        (b"a", b"a"),
+        (b"\xe2\x80\x8d", b"\xcc\x81"),
+        (b"\xe2\x82", b"\xac"),
+    ];
+    for (pre, post) in NEIGHBOURS.iter() {
+        let mut buf = pre.to_vec();
+        buf.extend_from_slice(input);
+        buf.extend_from_slice(post);
+        let view = &buf[pre.len()..pre.len() + input.len()];
+        let what = |t: &str, ty: &str| format!("{} {} of the input as a view between {:?} and {:?} vs the input on its own", ty, t, String::from_utf8_lossy(pre), String::from_utf8_lossy(post));
+        let tv = tokenize::<[u8]>(view)?;
+        same(&what("tokenize_lines", "[u8]"), &tv.lines, &tb.lines)?;
+        same(&what("tokenize_lines_and_newlines", "[u8]"), &tv.lines_nl, &tb.lines_nl)?;
+        same(&what("tokenize_words", "[u8]"), &tv.words, &tb.words)?;
+        same(&what("tokenize_chars", "[u8]"), &tv.chars, &tb.chars)?;
+        #[cfg(feature = "unicode")]
+        {
+            same(&what("tokenize_unicode_words", "[u8]"), &tv.uwords, &tb.uwords)?;
+            same(&what("tokenize_graphemes", "[u8]"), &tv.graphemes, &tb.graphemes)?;
+        }
+        if let (Ok(whole), Ok(_)) = (std::str::from_utf8(&buf), std::str::from_utf8(input)) {
+            if std::str::from_utf8(pre).is_ok() {
+                let sv = &whole[pre.len()..pre.len() + input.len()];
+                let ts = tokenize::<str>(sv)?;
+                same(&what("tokenize_lines", "str"), &ts.lines, &tb.lines)?;
+                same(&what("tokenize_lines_and_newlines", "str"), &ts.lines_nl, &tb.lines_nl)?;
+                same(&what("tokenize_words", "str"), &ts.words, &tb.words)?;
+                same(&what("tokenize_chars", "str"), &ts.chars, &tb.chars)?;
+            }
+        }
+    }
     let nontrivial = tb.chars.len() >= 2 && (tb.lines.len() >= 2 || tb.words.len() >= 2);
     Ok((nontrivial, ntok, fp.0))
 }
@@ -363,6 +398,7 @@ pub fn run(cfg: &RunCfg) -> CheckReport {
     );
     rep.assume("reference tokenizers in the harness; whitespace = char::is_whitespace; invalid UTF-8 delimited by the standard library's maximal-subpart rule, char tokens over invalid bytes only required to be <= 3 bytes, not UTF-8, ASCII-free");
     rep.assume("for the two unicode tokenizers only losslessness and non-emptiness are required (as stated)");
+    rep.assume("every input is additionally tokenized as a view into a larger buffer (4 neighbour pairs: CR before / LF after, letters, ZWJ before / combining mark after, the two halves of a split multi-byte character) and must give the tokens of the input on its own");
     let l = cfg.tier.pick(5, 6);
     let letters: Vec<&[u8]> = CHARS.iter().map(|s| s.as_bytes()).collect();
     let ex = explore_alphabet(cfg, &letters, l);
